@@ -217,12 +217,13 @@ class NetworkGraph(AbstractBaseIR):
                 if not scalar_edges:
                     continue
 
-                delays, spreads, nodes, add_delay = self._collect_delays_from_edges(scalar_edges)
+                delays, spreads, nodes, add_delay, n_slots = self._collect_delays_from_edges(scalar_edges)
 
                 # add synaptic buffer to output variables with delay
                 if add_delay:
                     # Clear delay fields from edges so _generate_edge_equation ignores them.
                     # Kept here (not inside _collect_delays_from_edges) so that method is pure.
+                    source_indices = [self.edges[edge]['source_idx'] for edge in scalar_edges]
                     for s, t, e in scalar_edges:
                         self.edges[s, t, e]['source_idx'] = []
                         self.edges[s, t, e]['delay'] = None
@@ -232,19 +233,19 @@ class NetworkGraph(AbstractBaseIR):
                                               nodes=nodes, spreads=spreads, dde_approx=dde_approx)
                     else:
                         # TODO: sort edges into unique delay/spread combinations and only loop over those
-                        if spreads:
-                            for i, (edge, delay, spread, node) in enumerate(zip(scalar_edges, delays, spreads, nodes)):
-                                if not delay:
-                                    continue  # undelayed edge: keeps reading the source variable itself
-                                self._add_edge_buffer(node_name, op_name, var_name, edges=[edge], delays=[delay],
-                                                      nodes=[node], spreads=[spread], dde_approx=dde_approx,
-                                                      buffer_id=f"_out{i}")
-                        else:
-                            for i, (edge, delay, node) in enumerate(zip(scalar_edges, delays, nodes)):
-                                if not delay:
-                                    continue  # undelayed edge: keeps reading the source variable itself
-                                self._add_edge_buffer(node_name, op_name, var_name, edges=[edge], delays=[delay],
-                                                      nodes=[node], dde_approx=dde_approx, buffer_id=f"_out{i}")
+                        # (an edge holds several delays if it bundles parallel connections between the same variables)
+                        start = 0
+                        for i, (edge, node, n) in enumerate(zip(scalar_edges, nodes, n_slots)):
+                            edge_delays = delays[start:start + n]
+                            edge_spreads = spreads[start:start + n] if spreads else None
+                            start += n
+                            if not any(edge_delays):
+                                # undelayed edge: keeps reading the source variable itself
+                                self.edges[edge]['source_idx'] = source_indices[i]
+                                continue
+                            self._add_edge_buffer(node_name, op_name, var_name, edges=[edge], delays=edge_delays,
+                                                  nodes=[node], spreads=edge_spreads, dde_approx=dde_approx,
+                                                  buffer_id=f"_out{i}")
 
         # go through nodes again, and collect and process all inputs to each node variable
         ##################################################################################
@@ -313,7 +314,7 @@ class NetworkGraph(AbstractBaseIR):
         return edges_new
 
     def _collect_delays_from_edges(self, edges):
-        means, stds, nodes = [], [], []
+        means, stds, nodes, counts = [], [], [], []
         for s, t, e in edges:
 
             # extract delay
@@ -347,6 +348,7 @@ class NetworkGraph(AbstractBaseIR):
             means += d
             stds += v
             nodes.append(source)
+            counts.append(len(d))
 
         # check whether edge delays have to be implemented or can be ignored
         max_delay = np.max(means)
@@ -355,7 +357,7 @@ class NetworkGraph(AbstractBaseIR):
         if sum(stds) == 0:
             stds = None
 
-        return means, stds, nodes, add_delay
+        return means, stds, nodes, add_delay, counts
 
     def _collect_from_edges(self, edges: list, keys: list):
         data = dict()
